@@ -243,6 +243,30 @@ fn main() {
     };
     let seed = seed();
     let t0 = Instant::now();
+    // regression tier: replay the committed counterexamples of this property first (no generation involved)
+    let mut regress_found: Vec<Found> = vec![];
+    let mut regress_n = 0u64;
+    if let Ok(rd) = std::fs::read_dir(verif_dir().join("regress").join(id)) {
+        let mut files: Vec<PathBuf> = rd.filter_map(|e| e.ok()).map(|e| e.path()).filter(|p| p.extension().map(|x| x == "json").unwrap_or(false)).collect();
+        files.sort();
+        for p in files {
+            if let Ok(text) = std::fs::read_to_string(&p) {
+                if let Ok(v) = serde_json::from_str::<Value>(&text) {
+                    let engine = v["engine"].as_str().unwrap_or("").to_string();
+                    regress_n += 1;
+                    let verdict = match catch(|| replay_engine(id, &engine, &v["case"])) {
+                        Ok(r) => r,
+                        Err(msg) => Err(Failure::new("panic", 0, format!("replaying {} panicked: {}", p.display(), msg))),
+                    };
+                    if let Err(f) = verdict {
+                        if !f.rule.starts_with("replay_") {
+                            regress_found.push(Found { engine, case: v["case"].clone(), failure: f });
+                        }
+                    }
+                }
+            }
+        }
+    }
     let (o, nontrivial) = match dispatch(id, quick, seed) {
         Some(x) => x,
         None => {
@@ -250,6 +274,9 @@ fn main() {
             std::process::exit(2);
         }
     };
+    let mut o = o;
+    o.stats.count("regression_replays", regress_n);
+    o.found.extend(regress_found);
     let wall = t0.elapsed().as_secs_f64();
 
     // classify findings
